@@ -1180,14 +1180,53 @@ func ruleC07Merge(c *Ctx) {
 		c.Bad(rule, FnName(fn)+" | merge store", "", fmt.Sprintf("expected exactly one merge store into s.r.volume.location, found %d", len(st)), nil)
 		return
 	}
-	if v := R.V(st[0].(*ssa.Store).Val); v != "var(replica.diffDisk).location[*]" {
+	// the private copy is whatever was handed to PreloadLunMap
+	priv := "var(replica.diffDisk)"
+	privAllocs := map[string]bool{}
+	if pl := CallsTo(fn, "replica.PreloadLunMap"); len(pl) == 1 {
+		priv = strings.TrimPrefix(R.V(pl[0].(*ssa.Call).Call.Args[0]), "&")
+		// ... or a local it was copied from as a whole (`volume := shadow()` written out)
+		privAllocs[priv] = true
+		for changed := true; changed; {
+			changed = false
+			eachInstr(fn, func(in ssa.Instruction) {
+				if s, ok := in.(*ssa.Store); ok {
+					if dst := strings.TrimPrefix(R.V(s.Addr), "&"); privAllocs[dst] {
+						var leaves []ssa.Value
+						var walk func(v ssa.Value, d int)
+						walk = func(v ssa.Value, d int) {
+							if p, ok := v.(*ssa.Phi); ok && d < 4 {
+								for _, e := range p.Edges {
+									walk(e, d+1)
+								}
+								return
+							}
+							leaves = append(leaves, v)
+						}
+						walk(s.Val, 0)
+						for _, v := range leaves {
+							if u, ok := v.(*ssa.UnOp); ok {
+								if al, ok := u.X.(*ssa.Alloc); ok {
+									if src := strings.TrimPrefix(R.V(al), "&"); !privAllocs[src] && strings.HasPrefix(src, "var(replica.diffDisk") {
+										privAllocs[src] = true
+										changed = true
+									}
+								}
+							}
+						}
+					}
+				}
+			})
+		}
+	}
+	if v := R.V(st[0].(*ssa.Store).Val); v != priv+".location[*]" {
 		c.Bad(rule, FnName(fn)+" | merge value", c.P.InstrPos(st[0]), "live map entry receives "+v+", expected the preloaded entry", nil)
 	} else {
 		c.OK(rule, FnName(fn)+" | merge value", c.P.InstrPos(st[0]), "s.r.volume.location[offset] = volume.location[offset]", false)
 	}
 	c.Guard(rule, fn, st, "overwrite live entry", lockOrUnlock,
-		atom("live <= preloaded", "-$0.r.volume.location[*] +var(replica.diffDisk).location[*] >=0"),
-		atom("preloaded entry known", "+var(replica.diffDisk).location[*] !=0"),
+		atom("live <= preloaded", "-$0.r.volume.location[*] +"+priv+".location[*] >=0"),
+		atom("preloaded entry known", "+"+priv+".location[*] !=0"),
 		needWLock("server lock (re)taken"),
 		okcall("replica.PreloadLunMap"))
 	var holes []ssa.Instruction
@@ -1199,7 +1238,7 @@ func ruleC07Merge(c *Ctx) {
 	// the private copy: location re-allocated before preload
 	var alloc []ssa.Instruction
 	eachInstr(fn, func(in ssa.Instruction) {
-		if s, ok := in.(*ssa.Store); ok && R.V(s.Addr) == "&var(replica.diffDisk).location" && strings.HasPrefix(R.V(s.Val), "makeslice(") {
+		if s, ok := in.(*ssa.Store); ok && strings.HasSuffix(R.V(s.Addr), ".location") && privAllocs[strings.TrimSuffix(strings.TrimPrefix(R.V(s.Addr), "&"), ".location")] && strings.HasPrefix(R.V(s.Val), "makeslice(") {
 			alloc = append(alloc, in)
 		}
 	})
